@@ -421,7 +421,7 @@ int main(int argc, char **argv)
     vp::bound("value_alphabet_V", (long long)V.size());
     vp::bound("lists_plain", "all lists of length 0..2 over V; all of length 3 over " + std::string(T ? "V; all of length 4 over a 22-value sub-alphabet" : "a 22-value sub-alphabet") + "; lists of length 4..12 per type and mixed (cyclic, no accidental runs)");
     vp::bound("runs", "prefix in sub-alphabet+none x run{i h c f d: delta 0,1,-1,3; T F: constant, alternating; s S constant" + std::string(T ? "; r N constant; starts 0, -2, type maximum-7" : "") + "} x length 3..8 x suffix in sub-alphabet+none" + (T ? "; prefix x suffix additionally over all of V x V" : "") + "; two runs in a row; 5..8 values stepping by one across INT_MAX/INT_MIN (32 and 64 bit)");
-    vp::bound("arrays", "every homogeneous array of length 0..4 over 3 values per element type (14 element types), alone and between scalars; arrays holding a run of length 3..8 with an optional extra element");
+    vp::bound("arrays", "every homogeneous array of length 0..4 over 3 values per element type (14 element types), alone and between scalars; arrays of 1..2 (thorough 3) arrays over 6 inner arrays; arrays holding a run of length 3..8 with an optional extra element");
     vp::bound("strings", "every string of length 0..3 over {a \" \\ \\n ' ' % 1} + identifiers + reserved words + one 130-char string, as s and S, alone and between neighbours");
     vp::bound("chars", T ? "every printable ASCII char and C escape, alone and every ordered pair" : "6 chars in V; every printable ASCII char and C escape alone");
     vp::bound("time_tags", "immediately + 4 dates x {00:00:00,00:01:00,12:34:56} x fraction {0,.5,.25,.125,2^-20}; alone, before and behind every value of V");
@@ -512,6 +512,17 @@ int main(int argc, char **argv)
                 }
                 if(code % 7 == 0) do_list("arr", idx++, List{arr, arr}, FEW); else ++idx;
             }
+        }
+        // arrays of arrays (the manual: arrays "can contain any types of elements")
+        {
+            List inner = {pf::Arr({}), pf::Arr({pf::I(1)}), pf::Arr({pf::I(0), pf::I(1)}), pf::Arr({pf::I(INT_MIN), pf::I(2)}), pf::Arr({pf::Str("ab"), pf::Str("")}), pf::Arr({pf::H(INT64_MAX)})};
+            for(auto &x : inner) {
+                do_list("arr", idx++, List{pf::Arr({x})});
+                do_list("arr", idx++, List{pf::I(7), pf::Arr({x}), pf::I(7)});
+                for(auto &y : inner) { do_list("arr", idx++, List{pf::Arr({x, y})}); do_list("arr", idx++, List{pf::mk('T'), pf::Arr({x, y})}, FEW);
+                    if(T) for(auto &z : inner) do_list("arr", idx++, List{pf::Arr({x, y, z})}, FEW); }
+            }
+            do_list("arr", idx++, List{pf::Arr({pf::Arr({pf::Arr({pf::I(1), pf::I(2)}), pf::Arr({})}), pf::Arr({pf::Arr({pf::I(3)})})})});
         }
         auto defs = run_defs(T);
         for(auto &rd : defs) for(int len = 3; len <= 8; ++len) {
